@@ -118,7 +118,7 @@ func (y *vsSys) Root() *vsState {
 }
 
 func (y *vsSys) Digest(s *vsState) [32]byte {
-	return s.w.Digest(s.ctx, world.PlansBytes(s.plans), []byte(canonSet(mirrorMap(s.mirror))))
+	return s.w.Digest(s.ctx, world.PlansBytes(s.plans), []byte(canonSet(mirrorMap(s.mirror))), []byte(fmt.Sprint(s.histConst)))
 }
 
 func (y *vsSys) Letters(s *vsState) []engine.Letter {
